@@ -52,6 +52,7 @@ ob("O-C09-neg", ["C09", "C05"], J, "c09_int_neg", "-Int: exact negation or fall-
 ob("O-C09-mul", ["C09", "C05"], J, "c09_int_mul_routing", "Int * Int: Int(z) exactly when checked_mul gives Some(z), else fall-back with the same operands (exactness of core's checked_mul trusted)", [NUM + "Num::mul"], stubs=["int_or_big"])
 ob("O-C09-rem", ["C09", "C05"], J, "c09_int_rem", "Int % Int (divisor != 0) is an integer equal to the primitive truncated remainder, with isize::MIN % -1 == 0; no panic (the primitive's exactness is core's contract)", [NUM + "Num::rem"], solver="cvc5")
 ob("O-C09-rem-bounds", ["C09"], J, "c09_int_rem_bounds", "Int % Int (divisor != 0): |result| < |divisor| and the result is 0 or has the sign of the dividend, for all operands", [NUM + "Num::rem"])
+ob("O-C09-iob", ["C09"], J, "c09_int_or_big", "int_or_big (the fall-back every integer operator routes through): Some(v) gives Int(v) without calling the fall-back; None calls it with big integers equal to the operands, in order, and returns its result as a big integer; all machine-integer operands, one- and two-operand forms", [NUM + "int_or_big", NUM + "Num::big_int"], kind="contract", composes_dependency=True)
 ob("O-C09-zero", ["C09"], J, "c09_zero_guard", "the guard Val::rem uses (y == Num::Int(0)) holds exactly for zero divisors among machine integers and floats", [NUM + "Num::eq"])
 for k, kinds in (("ff", "Float,Float"), ("if", "Int,Float"), ("fi", "Float,Int")):
     for opn, op in (("add", "+"), ("sub", "-"), ("mul", "*"), ("div", "/")):
@@ -127,6 +128,8 @@ for shape, what in (("index", "`.[k]`"), ("range", "`.[a:b]`")):
     for o, on in (("ess", "without `?`"), ("opt", "with `?`")):
         ob(f"O-C02-part-{shape}-{o}", ["C02"], C, f"c02_part_{shape}_{o}", f"one path step {what} {on}, for every value and key of an abstract container type that satisfies the ValT coherence between index / values / key_values / range: Part::paths yields the same values in the same order as Part::run, each with the input path extended by exactly one key k such that `v | .[k]` is the yielded value (getpath(path(p)) reproduces p), and Part::update calls the updating accessor of the same kind with the same arguments and the same `?` mark", [CORE + "path.rs::Part::run", CORE + "path.rs::Part::paths", CORE + "path.rs::Part::update"], kind="trait-contract")
 ob("O-C04-stack-loose", ["C04", "C03"], C, "c04_stack_loose_hint", "Stack::next with honest but inexact size hints (0, Some(remaining)): an iterator that has yielded its last element is not kept, whether or not the callback answers with a tail call", [CORE + "stack.rs::Stack::next"], label="bounded", bound="bottom stream of length 0..=2, with / without one tail call (enumerated concretely)")
+ob("O-C11-range-small", ["C11"], C, "c11_range_small", "the native range($from; $to; $by) yields exactly the outputs of its manual definition (`$from | if $by > 0 then while(. < $to; . + $by) elif $by < 0 then while(. > $to; . + $by) else while(. != $to; . + $by) end`), in order, and goes on producing exactly as long as the definition does (zero step: for ever) - exact-integer abstract value type", [CORE + "funs.rs::range"], kind="trait-contract", label="bounded", bound="from, to in -1..=2, by in -1..=1 (48 triples), first 3 outputs and whether a 4th exists; enumerated concretely")
+ob("O-C11-range-steps", ["C11"], C, "c11_range_steps", "the same for steps of 2 and 3, zero steps from equal / unequal bounds, and operands at the ends of the machine-integer range without overflow", [CORE + "funs.rs::range"], kind="trait-contract", label="bounded", bound="7 concrete triples")
 ob("O-C02-opt", ["C02"], C, "c02_opt_fail", "Opt::fail: Optional -> Ok(x) without running f, Essential -> Err(f(x))", [CORE + "path.rs::Opt::fail"], kind="contract")
 
 OBS.append(dict(id="O-C01-env", properties=["C01"], backend="verus", spec="verus/rc_list.spec.json", kind="verus", label="complete", tier="quick",
@@ -164,7 +167,7 @@ CFG = {
         },
         "C09": {
             "level": "proof",
-            "explanation": "Exactness of + - neg % on machine integers against i128 arithmetic for all 2^128 operand pairs, routing of * through checked_mul, fall-back entered with the same operands; result kinds and IEEE values of every mixed / float operation (+ - * /) bit for bit; observers. The big-integer fall-back itself (num-bigint) is replaced by a ghost-recording stub.",
+            "explanation": "Exactness of + - neg % on machine integers against i128 arithmetic for all 2^128 operand pairs, routing of * through checked_mul, fall-back entered with the same operands; result kinds and IEEE values of every mixed / float operation (+ - * /) bit for bit; observers. In those harnesses the fall-back int_or_big is replaced by a ghost-recording stub; its own contract (operands converted and passed in order, result wrapped) is O-C09-iob, and the operator applied by each fall-back closure is pinned at boundary points (O-C09-big-arith).",
             "not_decided": "BigInt x BigInt arithmetic (num-bigint), which operator the fall-back closure applies (pinned only by the test suite), float % values (fmod), object +/* merging, array -, string / splitting, Dec operands, Val-level dispatch",
             "assumptions": ["core::isize::checked_mul is the exact product when Some, and the primitive isize % is the truncated remainder (64x64->128 multiplier / divider equivalences are SAT-hard; trusted to core)"],
         },
@@ -228,6 +231,12 @@ CFG = {
             "explanation": "The writer half of the string round trip is finite: for each of the 256 byte values the real write_byte! macro (with the two fall-back expressions its callers pass) is run into a recording fmt::Write and compared with the escape RFC 8259 section 7 prescribes. Exhaustive over u8 in the thorough tier (16 harnesses of 16 bytes); the quick tier covers the control characters, the quote, and DEL / the first non-ASCII block. This decides 'what jaq writes for a string byte is what RFC 8259 says'; it does not decide the round trip.",
             "not_decided": "the reader (hifijson lexer, parse_string), hence print-then-parse = id itself; the splitting logic of write_utf8! around special bytes; shortest-round-trip float printing (ryu), big-integer and decimal literals, key order (indexmap), nesting, indentation / sort_keys, the CLI path, agreement with an independent RFC 8259 parser",
             "assumptions": ["core::fmt (format_args!, LowerHex, char::escape_default) is executed as compiled on concrete bytes"],
+        },
+        "C11": {
+            "level": "other",
+            "explanation": "Only `range/3` is decided: the native funs::range, generic over the value type, instantiated with an exact-integer abstract value (checked +, derived order), is compared output for output with the manual's `while` definition on concretely enumerated small operand triples (all sign combinations of the step, empty ranges, zero step from equal and unequal bounds, steps that skip past the bound). Bounded; and O-C11-once (the shape `last` / `min_by` return through) is complete but tiny.",
+            "not_decided": "the overflowing-step case (error delivered once, then end of stream: its harness exceeded 400 s), first / last / limit / skip (closures over the interpreter context) and hence the limit / skip inverse law, reduce / foreach (fold::fold: one concrete case exceeded 300 s), every defs.jq definition (repeat, recurse, while, until, isempty, any, all, nth, add, range/1, range/2): jq source, not Rust",
+            "assumptions": ["the abstract integer type's + and order are exact; that jaq_json::Val's are is C09 / C08"],
         },
         "C12": {
             "level": "other",
